@@ -68,16 +68,17 @@ Proof.
 Qed.
 Lemma no_setup_tick cur t : no_setup (snd (tick_sites c cur t)) = true.
 Proof.
-  destruct t as [en au te|]; cbn [tick_sites].
+  destruct t as [en au te| |fb]; cbn [tick_sites].
   - destruct cur as [m|]; [destruct (stays m en au te)|]; cbn [snd];
       rewrite ?no_setup_app, ?no_setup_leave, ?no_setup_enter, ?no_setup_iter; reflexivity.
   - destruct cur; cbn [snd]; [apply no_setup_leave | reflexivity].
+  - reflexivity.
 Qed.
 Lemma no_setup_ticks ts : forall cur, no_setup (ticks_sites c cur ts) = true.
 Proof.
   induction ts as [|t r IH]; intros cur; cbn [ticks_sites]; [reflexivity|].
   pose proof (no_setup_tick cur t) as H. destruct (tick_sites c cur t) as [cur' s]. cbn [snd] in H.
-  destruct t; [rewrite no_setup_app, H, IH; reflexivity | exact H].
+  destruct t; [rewrite no_setup_app, H, IH; reflexivity | exact H | rewrite no_setup_app, H, IH; reflexivity].
 Qed.
 
 Theorem setup_once_first ts :
@@ -219,7 +220,7 @@ Proof. intros H Hm. destruct m; try discriminate; apply H; auto. Qed.
 Lemma brk_tick cur t en : G cur en ->
   exists en', brk en (snd (tick_sites c cur t)) = Some en' /\ G (fst (tick_sites c cur t)) en'.
 Proof.
-  intros HG. destruct t as [e a te|]; cbn [tick_sites].
+  intros HG. destruct t as [e a te| |fb]; cbn [tick_sites].
   - destruct cur as [m|].
     + destruct (stays m e a te); cbn [fst snd].
       * exists en. split; [apply brk_iter, of_G, HG | exact HG].
@@ -231,6 +232,7 @@ Proof.
   - destruct cur as [m|]; cbn [fst snd].
     + destruct (brk_leave m en) as (en1 & H1). exists en1. split; [exact H1|]. intros [E|E]; discriminate.
     + exists en. split; [reflexivity|]. intros [E|E]; discriminate.
+  - cbn [fst snd]. exists en. split; [reflexivity | exact HG].
 Qed.
 
 Lemma brk_ticks ts : forall cur en, G cur en -> exists en', brk en (ticks_sites c cur ts) = Some en'.
@@ -238,7 +240,7 @@ Proof.
   induction ts as [|t r IH]; intros cur en HG; cbn [ticks_sites]; [exists en; reflexivity|].
   destruct (brk_tick cur t en HG) as (en1 & H1 & H2).
   destruct (tick_sites c cur t) as [cur' s]. cbn [fst snd] in *.
-  destruct t; [|exists en1; exact H1]. rewrite brk_app, H1. apply IH, H2.
+  destruct t; [|exists en1; exact H1|]; rewrite brk_app, H1; apply IH, H2.
 Qed.
 
 (* for every layout and every finite sequence of driver-station words: along the
